@@ -39,6 +39,15 @@ def gen_input(rng, cls):
         n, L = rng.randint(30, 99), rng.choice([60, 150, 300])
         root = gen.rand_seq(rng, L, alpha)
         seqs = [gen.mutate(rng, gen.mutate(rng, root, alpha, 0.15, 0.03, 2), alpha, 0.05, 0.0)[:L].ljust(L, alpha[0]) for _ in range(n)]
+    elif cls == "ties":
+        # low divergence and duplicates: many exactly equal pair distances within one UPGMA cluster of >= 32 sequences
+        n, L = rng.randint(32, 99), rng.randint(30, 80)
+        base = gen.family(rng, rng.randint(6, 16), L, alpha, "star", 0.03, 0.0, 1)
+        seqs = [rng.choice(base) if rng.random() < 0.5 else gen.mutate(rng, rng.choice(base), alpha, 0.02, 0.0) for _ in range(n)]
+    elif cls == "many_long":
+        # many merges of more than 1024 columns in different subtrees at the same time
+        n, L = rng.randint(16, 36), rng.choice([1040, 1100, 1250])
+        seqs = gen.family(rng, n, L, alpha, "balanced", 0.08, 0.005, 6)
     elif cls == "mixed":
         n, L = rng.choice([100, 120]), rng.choice([505, 520])
         seqs = gen.family(rng, n, L, alpha, "balanced", 0.1, 0.01, 4)
@@ -50,11 +59,11 @@ def gen_input(rng, cls):
     return kind, [("s%d" % i, s) for i, s in enumerate(seqs)]
 
 
-def one_run(ck, paths, f, word, nt, env, taskset=None, log=True):
+def one_run(ck, paths, f, word, nt, env, taskset=None, log=True, pen=None):
     out = ck.tmp(".out")
     lg = ck.tmp(".log") if log and paths["guard"] else None
     cmd_prefix = []
-    args = kal.type_args(word)
+    args = kal.type_args(word, *(pen or (None, None, None)))
     cmd = [paths["kalign"], "-q", "-n", str(nt)] + args + ["-o", out, f]
     if taskset:
         cmd = ["taskset", "-c", taskset] + cmd
@@ -79,7 +88,14 @@ def differential_case(ck, builds, idx, cls, tier):
     common.write_bytes(f, fmt.write_fasta(recs))
     ctx = {"class": cls, "kind": kind, "type": word, "idx": idx, "n": len(recs), "input": recs if len(recs) * len(recs[0][1]) < 30000 else "(seed-derived)"}
     rel = builds["rel"]
-    r, base, lrecs = one_run(ck, rel, f, word, 1, {})
+    # a third of the inputs with explicit penalties (they must reach every thread's merges, not only thread 0's)
+    pen = None
+    if rng.random() < 0.35:
+        big = 10.0 if (kind == "dna" and word in (None, "rna")) else 1.0
+        pen = (rng.choice([3.0, 12.0, 30.0]) * big, rng.choice([0.5, 4.0]) * big, rng.choice([0.0, 0.5, 6.0]) * big)
+        ck.count("inputs_with_explicit_penalties")
+    ctx["penalties"] = pen
+    r, base, lrecs = one_run(ck, rel, f, word, 1, {}, pen=pen)
     if ck.proc_violations(r, dict(ctx, nthreads=1, variant="rel")):
         return
     if r.rc != 0 or base is None:
@@ -114,7 +130,7 @@ def differential_case(ck, builds, idx, cls, tier):
     overlap_dp = overlap_km = 0
     for vname, nt, env, ts in variants:
         paths = builds[vname]
-        r, data, lr = one_run(ck, paths, f, word, nt, env, taskset=ts)
+        r, data, lr = one_run(ck, paths, f, word, nt, env, taskset=ts, pen=pen)
         c2 = dict(ctx, nthreads=nt, variant=vname, env=env, taskset=ts)
         ck.count("runs")
         ck.count("runs_%s" % vname)
@@ -253,18 +269,18 @@ def run(ck, tier):
     if not os.path.exists(ARCHER):
         raise common.Inconclusive("libarcher.so missing")
     sc = getattr(ck, "scale", 1.0)
-    classes = ["kmeans", "kmeans_dups", "wide", "long", "mixed", "small", "equal_len"]
+    classes = ["kmeans", "kmeans_dups", "wide", "long", "mixed", "small", "equal_len", "ties", "many_long"]
     if tier == "quick":
-        plan = ["kmeans", "kmeans", "kmeans_dups", "kmeans_dups", "wide", "wide", "long", "long", "long", "mixed", "small", "equal_len", "equal_len"]
+        plan = ["kmeans", "kmeans", "kmeans_dups", "kmeans_dups", "wide", "wide", "long", "long", "long", "mixed", "small", "equal_len", "equal_len", "ties", "ties", "many_long"]
         ntsan = 10
     else:
-        plan = [classes[i % 7] for i in range(154)]
+        plan = [classes[i % 9] for i in range(162)]
         ntsan = 120
     plan = plan * max(1, int(sc)) if sc >= 2 else plan
     jobs = list(enumerate(plan))
     common.pmap(lambda j: differential_case(ck, builds, j[0], j[1], tier), jobs, workers=6)
-    tcls = ["kmeans", "kmeans_dups", "wide", "long", "mixed", "equal_len"]
-    common.pmap(lambda i: tsan_case(ck, tpaths, 5000 + i, tcls[i % 6]), range(int(ntsan * max(1.0, sc))), workers=6)
+    tcls = ["kmeans", "kmeans_dups", "wide", "long", "mixed", "equal_len", "many_long", "ties"]
+    common.pmap(lambda i: tsan_case(ck, tpaths, 5000 + i, tcls[i % 8]), range(int(ntsan * max(1.0, sc))), workers=6)
     ck.rule = ("inputs reaching every parallel region (>= 100 sequences: distance matrix omp-for and k-means restart tasks; duplicates: k-means tie fallback; wide "
                "trees: tree-parallel merges; >= 500 columns: Hirschberg halves as tasks); each is run at 1 thread and then at thread counts from "
                "{2,3,4,7,8,16,32,64} x repeats with seeded injected delays, affinity masks of 1/2/16 cores and nested parallelism on/off, in the no-OpenMP, "
